@@ -128,9 +128,6 @@ def gen_tract(chk):
 
 # ------------------------------------------------------------------ main
 KNOWN_TEXT = {
-    'S-C15e': 'Tractogram() + t (left operand without data_per_point / data_per_streamline keys): '
-              'PerArrayDict.extend stores the right operand\'s own arrays, so assigning through the sum\'s '
-              'per-point data alters t',
     'S-C15d': 'assignment through a view no longer reaches the sequence it was taken from once either '
               'of them has been grown (growth re-allocates / detaches: the two stop sharing _data)',
 }
@@ -288,7 +285,9 @@ def run(chk: Check):
                 'Tractogram layer (direct predicate only): source x {t + Tractogram(), t + t[0:0], t + t[[]], t + other, '
                 't + t, t.copy(), t[slice/list/mask], sums of views, t[0:0] + t} x {no growth, += empty / empty slice / '
                 'non-empty, growth of the source} x {element / slice assignment, in-place arithmetic on streamlines and '
-                'data_per_point of the derived and of the source tractogram} plus random histories of depth 5-20')
+                'data_per_point / data_per_streamline of the derived and of the source tractogram} plus Tractogram() + t and '
+                'e += t (left operand without keys: the sum must be independent of t in all three components) and random '
+                'histories of depth 5-20')
     chk.assumptions = [
         'all sequence objects created in a history stay referenced until dropped explicitly; element arrays returned by '
         'integer indexing are never held across a step (a held element keeps a reference to _data and changes what '
@@ -359,9 +358,10 @@ def run(chk: Check):
 
 
 UNPROVED = [
-    'C15_own_contents for seq[idx] = other_sequence (OSetIdx ... (VSeq j): element-by-element copy with NumPy '
-    'one-row broadcasting, possibly a partial assignment before a ValueError): only preservation of the invariant '
-    '(wf_step) is proved; the values are tied by the correspondence check only',
+    'C15_own_contents for seq[idx] = other_sequence at full strength: proved (C15_own_contents_setitem_seq_partial) '
+    'when the source is on another buffer and no element raises; NOT proved when source and target share the buffer '
+    '(the element-by-element copy reads rows it has just written) and for the partial assignment left by a mid-way '
+    'ValueError — there only preservation of the invariant is proved and the values are tied by the correspondence',
     'no single simulation theorem abs(step st o) = spec_step (abs st) o against an abstract list-with-sharing machine '
     'is stated: what is proved, for every reachable state, is per operation (a) the contents of the target / created '
     'object as a list function of the old contents and (b) the value of every element of every other object',
